@@ -172,6 +172,11 @@ func watcherGoroutines() int {
 
 func execCtx(t *testing.T, tr *vrt.Tracer, sc ctxScenario, ex *vrt.Explorer) {
 	t.Helper()
+	stopWD := vrt.Watchdog(120*time.Second, func() {
+		tr.Close()
+		panic("verif: the run does not come to rest: a goroutine waits for a lock whose holder is blocked (recorded up to the last rest point)")
+	})
+	defer stopWD()
 	synctest.Test(t, func(*testing.T) {
 		var mu sync.Mutex
 		over := false
